@@ -25,7 +25,7 @@
       geometry is again in metres"                                feet_roundtrip
     "right-justified … names (… only right-justified names are
       safe in files)"                                             rjust_names_safe, left_justified_name_changes
-    every field of the format table of the *current* /repo tree  table_is_current  (evaluated on every build)
+    every table taken from the *current* /repo tree               tables_are_current  (evaluated on every build)
 
   `WF g` (decidable, `Model/GeoFile.lean`) is the property's own quantifier — header options in range,
   right-justified names of the convention's length without line breaks, distinct names, column nodes and
@@ -46,10 +46,30 @@ open Py Model Model.GeoFile
 /-- `g'` is what writing `g` to a file and reading that file gives -/
 def Reread (g g' : Geo) : Prop := ∃ t, write g = .ok t ∧ GeoFile.read t = .ok g'
 
-/-- the format table regenerated from /repo's `mulgrid_format_specification` (field names — hence the
-    instance-dictionary keys the header is read into and written from — and field specs) is the
-    table all theorems below are about -/
-theorem table_is_current : specs = .ok SP := Proofs.GeoFile.specs_eq
+/-- **Tie to the current /repo tree.**  Every table the model takes from the source is regenerated on
+    each run (`Gen/Specs.lean`: `mulgrid_format_specification`, i.e. the field names — hence the
+    instance-dictionary keys the header is read into and written from — and field specs;
+    `Gen/Conventions.lean`: name lengths, atmosphere column names, `block_name` parts;
+    `Gen/GeoTables.lean`: unit scales, block orders, the keyword dispatch of `read`, the order and
+    keyword lines of the section writers) and is, by evaluation, the table the theorems below are
+    proved for.  A change of any of them in /repo makes this theorem (and the proofs that compute
+    through the tables) fail to check. -/
+theorem tables_are_current :
+    specs = .ok SP ∧
+    Gen.Conventions.colnameLength = [3, 2, 3, 3] ∧ Gen.Conventions.layernameLength = [2, 3, 2, 2] ∧
+    Gen.Conventions.atmosphereColumnName = [['A', 'T', 'M'], [' ', '0'], [' ', ' ', '0'], ['A', 'T', 'M']] ∧
+    ([0, 1, 2, 3].map blockParts = Gen.Conventions.blockParts) ∧
+    Gen.GeoTables.unitScale = [([], 1, 1), (feet, 381, 1250)] ∧
+    Gen.GeoTables.blockOrders = [(0, layerColumnName), (1, dmplexName)] ∧
+    Gen.GeoTables.blockOrderInts = [(layerColumnName, 0), (dmplexName, 1)] ∧
+    Gen.GeoTables.readKeywords.map (fun p => (String.ofList p.1, p.2)) =
+      [("VERTI", "read_nodes"), ("GRID", "read_columns"), ("CONNE", "read_connections"), ("LAYER", "read_layers"),
+       ("SURFA", "read_surface"), ("SURF", "read_surface"), ("WELLS", "read_wells")] ∧
+    Gen.GeoTables.writeKeywords.map (fun p => (p.1, String.ofList p.2)) =
+      [("write_header", ""), ("write_nodes", "VERTICES"), ("write_columns", "GRID"), ("write_connections", "CONNECTIONS"),
+       ("write_layers", "LAYERS"), ("write_surface", "SURFA"), ("write_wells", "WELLS")] := by
+  refine ⟨Proofs.GeoFile.specs_eq, ?_⟩
+  decide
 
 /-! ### the round trip -/
 
